@@ -68,6 +68,13 @@ func Inject(t *rapid.T, p *Program, class string) (*Program, *Fault) {
 		mb := q.Metas[0]
 		src := mb.Entries[pickIdx(t, len(mb.Entries), "dm_src")]
 		dup := MetaEntry{Mark: FaultMark, Name: src.Name, Kind: KScalar, Type: "u32", Doc: "dup"}
+		if rapid.Bool().Draw(t, "dm_alias") {
+			// the second declaration of the name is a reference declaration (`Entry Name,`)
+			dup = MetaEntry{Mark: FaultMark, Name: src.Name, Alias: mb.Entries[pickIdx(t, len(mb.Entries), "dm_alias_of")].Name, Doc: "dup"}
+			if rapid.Bool().Draw(t, "dm_alias_nodoc") {
+				dup.Doc = ""
+			}
+		}
 		if rapid.Bool().Draw(t, "dm_newblock") {
 			q.Metas = append(q.Metas, &MetaBlock{Name: fresh + "Blk", Entries: []MetaEntry{dup}})
 		} else {
